@@ -400,7 +400,7 @@ func zzCount(n *Node) int {
 // on k.
 func C17Xml() {
 	N := zz.Param("N", 3)
-	xp := []string{"/R/T", "/R/T[x='1']", "/R/T[@a='1']", "/R/T[@a='1'][x='1']", "//T[x='1']"}[zz.NondetChoice("xpath", 5)]
+	xp := []string{"/R/T", "/R/T[x='1']", "/R/T[@a='1']", "/R/T[@a='1'][x='1']", "//T[x='1']", "/R/T[@a='1']\n\t[x='1']"}[zz.NondetChoice("xpath", 6)]
 	sepKind := zz.NondetChoice("sep", 3) // none, newline between records, text
 	sep := [][]byte{nil, []byte("\n"), []byte(" t ")}[sepKind]
 	doc := []byte("<R>")
